@@ -853,11 +853,16 @@ where
                 builder.assert_zero(sel_mul.dup() * (ab[i].dup() - out[i]));
             }
 
-            // ── BOOL_CHECK: a[0]*(a[0]-1)=0, a[1..D]=0 ─────────────────
+            // ── BOOL_CHECK: a[0]*(a[0]-1)=0, a[1..D]=0, out = a ────────
             let one = AB::Expr::ONE;
             builder.assert_zero(sel_bool * a[0] * (a[0] - one));
             for i in 1..D {
                 builder.assert_zero(sel_bool * a[i]);
+            }
+            // The checked value reaches the witness bus through `out` (the `a` column is off the
+            // bus when it aliases a slot this row creates), so the predicate must bind `out`.
+            for i in 0..D {
+                builder.assert_zero(sel_bool * (a[i] - out[i]));
             }
 
             // ── MUL_ADD: a * b + c - out = 0 ────────────────────────────
